@@ -2,7 +2,7 @@ package types
 
 import (
 	"reflect"
-	"sync"
+	"sync/atomic"
 )
 
 const (
@@ -185,7 +185,7 @@ func (e *emmiter) Listeners(evt EventName) []Listener {
 }
 
 type oneTimeListener struct {
-	fired *sync.Once
+	fired atomic.Bool
 
 	evt     EventName
 	emitter *emmiter
@@ -193,11 +193,14 @@ type oneTimeListener struct {
 	entry   *eventEntry
 }
 
+// The registration is removed and then the listener is invoked, as Once
+// documents: a listener that emits its own event again (a "packetCreate"
+// listener that sends, say) is not re-entered and does not wait for itself.
 func (l *oneTimeListener) execute(vals ...any) {
-	l.fired.Do(func() {
-		defer l.emitter.removeEntry(l.evt, l.entry)
+	if l.fired.CompareAndSwap(false, true) {
+		l.emitter.removeEntry(l.evt, l.entry)
 		l.fn(vals...)
-	})
+	}
 }
 
 // removeEntry removes exactly the given registration.
@@ -219,7 +222,7 @@ func (e *emmiter) Once(evt EventName, listeners ...Listener) error {
 		if event == nil {
 			continue
 		}
-		oneTime := &oneTimeListener{fired: &sync.Once{}, evt: evt, emitter: e, fn: event}
+		oneTime := &oneTimeListener{evt: evt, emitter: e, fn: event}
 		oneTime.entry = &eventEntry{fn: oneTime.execute, ptr: reflect.ValueOf(event).Pointer()}
 		events = append(events, oneTime.entry)
 	}
